@@ -258,6 +258,19 @@ Fixpoint rounds_agree (c : C01_case) (p : list Q) (t : list Q) (rounds : list (l
 (* the recorded batch streams have the number of batches that ShuffleRepeatBatchView.__init__ computes (translated:
    gen/Gen_client_datasets.shuffle_num_steps) -- none for an empty dataset (__iter__ returns at once) -- and every
    batch has batch_size rows with indices into the client's dataset *)
+(* content of a shuffle_repeat_batch stream: the concatenation of the batches is a concatenation of passes over the
+   dataset; every complete window of n indices holds each of 0..n-1 (hence exactly once), the incomplete last window
+   holds distinct indices *)
+Fixpoint distinct_b (l : list nat) : bool :=
+  match l with [] => true | x :: r => negb (existsb (Nat.eqb x) r) && distinct_b r end.
+Fixpoint windows_ok (fuel n : nat) (l : list nat) : bool :=
+  match fuel with
+  | O => false
+  | Datatypes.S fuel' =>
+      if Nat.ltb (length l) n then distinct_b l
+      else forallb (fun i => existsb (Nat.eqb i) (firstn n l)) (seq 0 n) && windows_ok fuel' n (skipn n l)
+  end.
+
 Definition stream_ok (c : C01_case) (id_stream : Z * list (list nat)) : bool :=
   let '(bs, epochs, steps, drop) := k_hp c in
   let n := length (lookup (k_pop c) (fst id_stream) []) in
@@ -269,7 +282,8 @@ Definition stream_ok (c : C01_case) (id_stream : Z * list (list nat)) : bool :=
           | _ => false
           end
    end) &&
-  forallb (fun b => Z.eqb (Z.of_nat (length b)) bs && forallb (fun i => Nat.ltb i n) b) st.
+  forallb (fun b => Z.eqb (Z.of_nat (length b)) bs && forallb (fun i => Nat.ltb i n) b) st &&
+  (match n with O => true | _ => windows_ok (Datatypes.S (length (concat st))) n (concat st) end).
 
 (* Exhaustive grid for the step-count formula: all (N, batch_size, num_epochs, num_steps, drop_remainder) with
    0 <= N <= Nmax, 1 <= bs <= bsmax, num_epochs in {None, 0..emax}, num_steps in {None, 0..smax}, except the
